@@ -86,6 +86,18 @@ fn check_attr(w: &dyn AttributeWrite, what: &str, ty: u16, value: &[u8]) -> Test
         hex_short(&via_raw),
         hex_short(&want)
     );
+    // the conversion traits are the same serialisation
+    let via_from: Vec<u8> = guard(|| Vec::<u8>::from(w.to_raw())).map_err(|p| Fail::new("c12-panic", format!("{}: Vec::from(RawAttribute) panicked: {}", what, p)))?;
+    let via_owned = guard(|| w.to_raw().into_owned().to_bytes()).map_err(|p| Fail::new("c12-panic", format!("{}: into_owned panicked: {}", what, p)))?;
+    ensure!(
+        via_from == want && via_owned == want,
+        "c12-attr-raw",
+        "{}: Vec::<u8>::from(to_raw()) = {}, to_raw().into_owned().to_bytes() = {}, expected {}",
+        what,
+        hex_short(&via_from),
+        hex_short(&via_owned),
+        hex_short(&want)
+    );
     let mut buf = vec![FILL; padded + 16];
     for extra in [0usize, 1, 3, 16] {
         buf.fill(FILL);
